@@ -51,16 +51,72 @@ fn has_dups(xs: &[u64]) -> bool {
     s.len() != xs.len()
 }
 
+// ------------------------------------------------------------------------------------ comparisons
+
+fn show_ord(o: Option<std::cmp::Ordering>) -> &'static str {
+    match o {
+        Some(std::cmp::Ordering::Less) => "lt",
+        Some(std::cmp::Ordering::Equal) => "eq",
+        Some(std::cmp::Ordering::Greater) => "gt",
+        None => "none",
+    }
+}
+fn ord_of(le_ab: bool, le_ba: bool) -> &'static str {
+    match (le_ab, le_ba) {
+        (true, true) => "eq",
+        (true, false) => "lt",
+        (false, true) => "gt",
+        (false, false) => "none",
+    }
+}
+fn flip(o: &str) -> &'static str {
+    match o {
+        "lt" => "gt",
+        "gt" => "lt",
+        "eq" => "eq",
+        _ => "none",
+    }
+}
+/// what the real code answers for a pair: partial_cmp(a,b), a==b, partial_cmp(b,a), b==a, and the `changed` flags of
+/// merging a into (a clone of) b and b into (a clone of) a
+struct CmpOut {
+    cmp: String,
+    eq: bool,
+    rcmp: String,
+    req: bool,
+    changed_b_by_a: bool,
+    changed_a_by_b: bool,
+}
+fn cmp_pair<T: PartialOrd + PartialEq + Clone + Merge<T>>(a: &T, b: &T) -> CmpOut {
+    let c = |x: &T, y: &T| match std::panic::catch_unwind(std::panic::AssertUnwindSafe(|| x.partial_cmp(y))) {
+        Ok(o) => show_ord(o).to_string(),
+        Err(_) => "panic".to_string(),
+    };
+    let (mut b2, mut a2) = (b.clone(), a.clone());
+    CmpOut { cmp: c(a, b), eq: a == b, rcmp: c(b, a), req: b == a, changed_b_by_a: b2.merge(a.clone()), changed_a_by_b: a2.merge(b.clone()) }
+}
+macro_rules! cmp_impl {
+    (yes, $slf:expr, $other:expr) => {
+        Some(cmp_pair($slf, &$other))
+    };
+    (no, $slf:expr, $other:expr) => {{
+        let _ = &$other;
+        None
+    }};
+}
+
 // ------------------------------------------------------------------------------------ sets
 
 trait SetBackend {
     fn merge_rep(&mut self, repr: &str, l: &[u64], t: &[u64]) -> bool;
     fn reveal(&self) -> (Vec<u64>, Vec<u64>);
     fn bot(&self) -> bool;
+    /// compare with the state (l, t) of the same type; `None`: this backend has no PartialOrd/PartialEq
+    fn cmp_with(&self, l: &[u64], t: &[u64]) -> Option<CmpOut>;
 }
 
 macro_rules! set_backend {
-    ($ty:ty, $item:ty, $same:expr) => {
+    ($ty:ty, $item:ty, $same:expr, $cmp:tt) => {
         impl SetBackend for $ty {
             fn merge_rep(&mut self, repr: &str, l: &[u64], t: &[u64]) -> bool {
                 type I = $item;
@@ -105,6 +161,11 @@ macro_rules! set_backend {
             fn bot(&self) -> bool {
                 self.is_bot()
             }
+            fn cmp_with(&self, l: &[u64], t: &[u64]) -> Option<CmpOut> {
+                type I = $item;
+                let other: $ty = ($same)(conv::<I>(l), conv::<I>(t));
+                cmp_impl!($cmp, self, other)
+            }
         }
     };
 }
@@ -114,10 +175,11 @@ type SBt = SetUnionWithTombstones<BTreeSet<u64>, HashSet<u64>>;
 type SRo = SetUnionWithTombstonesRoaring;
 type SFst = SetUnionWithTombstonesFstString;
 
-set_backend!(SHs, u64, |l: Vec<u64>, t: Vec<u64>| SHs::new(l.into_iter().collect(), t.into_iter().collect()));
-set_backend!(SBt, u64, |l: Vec<u64>, t: Vec<u64>| SBt::new(l.into_iter().collect(), t.into_iter().collect()));
-set_backend!(SRo, u64, |l: Vec<u64>, t: Vec<u64>| SRo::new(l.into_iter().collect(), RoaringTombstoneSet::from_iter(t)));
-set_backend!(SFst, String, |l: Vec<String>, t: Vec<String>| SFst::new(l.into_iter().collect(), FstTombstoneSet::from_iter(t)));
+set_backend!(SHs, u64, |l: Vec<u64>, t: Vec<u64>| SHs::new(l.into_iter().collect(), t.into_iter().collect()), yes);
+set_backend!(SBt, u64, |l: Vec<u64>, t: Vec<u64>| SBt::new(l.into_iter().collect(), t.into_iter().collect()), yes);
+// the roaring and FST tombstone sets are not cc_traits::Iter/Get: no PartialOrd/PartialEq for these two
+set_backend!(SRo, u64, |l: Vec<u64>, t: Vec<u64>| SRo::new(l.into_iter().collect(), RoaringTombstoneSet::from_iter(t)), no);
+set_backend!(SFst, String, |l: Vec<String>, t: Vec<String>| SFst::new(l.into_iter().collect(), FstTombstoneSet::from_iter(t)), no);
 
 const SET_TAGS: [&str; 4] = ["hs", "bt", "ro", "fst"];
 fn fresh_sets() -> Vec<Box<dyn SetBackend>> {
@@ -157,10 +219,11 @@ trait MapBackend {
     fn merge_rep(&mut self, repr: &str, m: &[Entry], t: &[u64]) -> bool;
     fn reveal(&self) -> (Vec<Entry>, Vec<u64>);
     fn bot(&self) -> bool;
+    fn cmp_with(&self, m: &[Entry], t: &[u64]) -> Option<CmpOut>;
 }
 
 macro_rules! map_backend {
-    ($ty:ty, $key:ty, $tomb:expr) => {
+    ($ty:ty, $key:ty, $tomb:expr, $cmp:tt) => {
         impl MapBackend for $ty {
             fn merge_rep(&mut self, repr: &str, m: &[Entry], t: &[u64]) -> bool {
                 type K = $key;
@@ -216,6 +279,14 @@ macro_rules! map_backend {
             fn bot(&self) -> bool {
                 self.is_bot()
             }
+            fn cmp_with(&self, m: &[Entry], t: &[u64]) -> Option<CmpOut> {
+                type K = $key;
+                let other = <$ty>::new(
+                    m.iter().map(|(k, v)| (K::of(*k), Val::new(v.iter().copied().collect()))).collect(),
+                    ($tomb)(conv::<K>(t)),
+                );
+                cmp_impl!($cmp, self, other)
+            }
         }
     };
 }
@@ -223,9 +294,9 @@ macro_rules! map_backend {
 type MHs = MapUnionWithTombstones<HashMap<u64, Val>, HashSet<u64>>;
 type MRo = MapUnionWithTombstonesRoaring<Val>;
 type MFst = MapUnionWithTombstonesFstString<Val>;
-map_backend!(MHs, u64, |t: Vec<u64>| t.into_iter().collect::<HashSet<u64>>());
-map_backend!(MRo, u64, |t: Vec<u64>| RoaringTombstoneSet::from_iter(t));
-map_backend!(MFst, String, |t: Vec<String>| FstTombstoneSet::from_iter(t));
+map_backend!(MHs, u64, |t: Vec<u64>| t.into_iter().collect::<HashSet<u64>>(), yes);
+map_backend!(MRo, u64, |t: Vec<u64>| RoaringTombstoneSet::from_iter(t), no);
+map_backend!(MFst, String, |t: Vec<String>| FstTombstoneSet::from_iter(t), no);
 
 const MAP_TAGS: [&str; 3] = ["hs", "ro", "fst"];
 fn fresh_maps() -> Vec<Box<dyn MapBackend>> {
@@ -407,6 +478,75 @@ impl Runner {
                     outs.push(show_tset(&st));
                 }
                 tagged(&SET_TAGS, &outs)
+            }
+            ["ts", "cmp", r] => {
+                let Some((l, t)) = parse_tset(r) else { return "bad-op".into() };
+                if has_dups(&l) || has_dups(&t) || l.iter().any(|x| t.contains(x)) {
+                    return "bad-op".into();
+                }
+                let (sb, tb): (BTreeSet<u64>, BTreeSet<u64>) = (l.iter().copied().collect(), t.iter().copied().collect());
+                let mut outs = vec![];
+                let mut tags = vec![];
+                for (b, tag) in self.sets.iter().zip(SET_TAGS) {
+                    let Some(o) = b.cmp_with(&l, &t) else { continue };
+                    // the order of the lattice, from what the state reveals: a <= b iff a's tombstones are b's and every
+                    // live item of a is live or tombstoned in b
+                    let (la, ta) = b.reveal();
+                    let (sa, ta): (BTreeSet<u64>, BTreeSet<u64>) = (la.into_iter().collect(), ta.into_iter().collect());
+                    let le_ab = ta.is_subset(&tb) && sa.iter().all(|x| sb.contains(x) || tb.contains(x));
+                    let le_ba = tb.is_subset(&ta) && sb.iter().all(|x| sa.contains(x) || ta.contains(x));
+                    let want = ord_of(le_ab, le_ba);
+                    let d = format!("{line}: self={} got {}/{}/{}/{} want {want}", show_tset(&b.reveal()), o.cmp, o.eq, o.rcmp, o.req);
+                    rec.check(o.cmp == want, &format!("tomb-set-cmp@{tag}"), &d);
+                    rec.check(o.rcmp == flip(&o.cmp), &format!("tomb-set-cmp-duality@{tag}"), &d);
+                    rec.check(o.eq == (want == "eq") && o.req == o.eq, &format!("tomb-set-eq@{tag}"), &d);
+                    rec.check(o.changed_b_by_a == !le_ab && o.changed_a_by_b == !le_ba, &format!("tomb-set-cmp-vs-merge@{tag}"), &format!("{d} changed {}/{}", o.changed_b_by_a, o.changed_a_by_b));
+                    if tag == "hs" {
+                        rec.count(&format!("ts-cmp:{want}"));
+                        if sa != sb && ta != tb {
+                            rec.count("ts-cmp:differ-in-live-and-tombstones");
+                            self.interacts = true;
+                        }
+                    }
+                    outs.push(format!("{}/{}/{}/{}", o.cmp, o.eq, o.rcmp, o.req));
+                    tags.push(tag);
+                }
+                tagged(&tags, &outs)
+            }
+            ["tm", "cmp", r] => {
+                let Some((m, t)) = parse_tmap(r) else { return "bad-op".into() };
+                let ks: Vec<u64> = m.iter().map(|e| e.0).collect();
+                if has_dups(&ks) || has_dups(&t) || ks.iter().any(|k| t.contains(k)) || m.iter().any(|e| has_dups(&e.1)) {
+                    return "bad-op".into();
+                }
+                let val = |m: &[Entry], k: u64| -> BTreeSet<u64> { m.iter().find(|e| e.0 == k).map(|e| e.1.iter().copied().collect()).unwrap_or_default() };
+                let tb: BTreeSet<u64> = t.iter().copied().collect();
+                let mut outs = vec![];
+                let mut tags = vec![];
+                for (b, tag) in self.maps.iter().zip(MAP_TAGS) {
+                    let Some(o) = b.cmp_with(&m, &t) else { continue };
+                    let (ma, ta) = b.reveal();
+                    let ta: BTreeSet<u64> = ta.into_iter().collect();
+                    let keys: BTreeSet<u64> = ma.iter().map(|e| e.0).chain(ks.iter().copied()).collect();
+                    // a <= b iff a's tombstones are b's and, outside b's tombstones, every value of a is below b's
+                    let le_ab = ta.is_subset(&tb) && keys.iter().all(|&k| tb.contains(&k) || val(&ma, k).is_subset(&val(&m, k)));
+                    let le_ba = tb.is_subset(&ta) && keys.iter().all(|&k| ta.contains(&k) || val(&m, k).is_subset(&val(&ma, k)));
+                    let want = ord_of(le_ab, le_ba);
+                    let d = format!("{line}: self={} got {}/{}/{}/{} want {want}", show_tmap(&b.reveal()), o.cmp, o.eq, o.rcmp, o.req);
+                    rec.check(o.cmp == want, &format!("tomb-map-cmp@{tag}"), &d);
+                    rec.check(o.rcmp == flip(&o.cmp), &format!("tomb-map-cmp-duality@{tag}"), &d);
+                    rec.check(o.eq == (want == "eq") && o.req == o.eq, &format!("tomb-map-eq@{tag}"), &d);
+                    rec.check(o.changed_b_by_a == !le_ab && o.changed_a_by_b == !le_ba, &format!("tomb-map-cmp-vs-merge@{tag}"), &format!("{d} changed {}/{}", o.changed_b_by_a, o.changed_a_by_b));
+                    rec.count(&format!("tm-cmp:{want}"));
+                    let differ_live = keys.iter().any(|&k| !ta.contains(&k) && !tb.contains(&k) && val(&ma, k) != val(&m, k));
+                    if differ_live && ta != tb {
+                        rec.count("tm-cmp:differ-in-live-and-tombstones");
+                        self.interacts = true;
+                    }
+                    outs.push(format!("{}/{}/{}/{}", o.cmp, o.eq, o.rcmp, o.req));
+                    tags.push(tag);
+                }
+                tagged(&tags, &outs)
             }
             ["tb", "union", r, q] => {
                 let (Some((a, b)), Ok(q)) = (parse_tset(r), q.parse::<u64>()) else { return "bad-op".into() };
@@ -665,6 +805,123 @@ fn gen_map_case(rng: &mut Rng, thorough: bool) -> Vec<String> {
     ls
 }
 
+fn show_entries(m: &[Entry]) -> String {
+    if m.is_empty() { "-".to_string() } else { m.iter().map(|(k, v)| format!("{k}:{}", if v.is_empty() { "-".into() } else { v.iter().map(|x| x.to_string()).collect::<Vec<_>>().join(".") })).collect::<Vec<_>>().join(",") }
+}
+
+/// a set state over {0..dom} from a base-3 code: digit 0 = absent, 1 = live, 2 = tombstoned
+fn tset_of_code(dom: u64, mut code: u64) -> (Vec<u64>, Vec<u64>) {
+    let (mut l, mut t) = (vec![], vec![]);
+    for i in 0..dom {
+        match code % 3 { 1 => l.push(i), 2 => t.push(i), _ => {} }
+        code /= 3;
+    }
+    (l, t)
+}
+/// every pair of set states over three items: one case per left state, one `ts cmp` line per right state
+fn exhaustive_set_cmp_cases() -> Vec<Vec<String>> {
+    (0..27u64)
+        .map(|a| {
+            let (l, t) = tset_of_code(3, a);
+            let mut ls = vec![format!("ts merge same {}|{}", show_unsorted(&l), show_unsorted(&t))];
+            for b in 0..27u64 {
+                let (l, t) = tset_of_code(3, b);
+                ls.push(format!("ts cmp {}|{}", show_unsorted(&l), show_unsorted(&t)));
+            }
+            ls
+        })
+        .collect()
+}
+/// random set states over 3..6 items (so that live and tombstones can differ at once), perturbations of the left one
+fn gen_set_cmp_case(rng: &mut Rng) -> Vec<String> {
+    let dom = rng.range(3, 6);
+    let code = rng.below(3u64.pow(dom as u32));
+    let (l, t) = tset_of_code(dom, code);
+    let mut ls = vec![format!("ts merge {} {}|{}", rng.pick(&["same", "vec", "hash"]), show_unsorted(&l), show_unsorted(&t))];
+    if rng.chance(1, 2) {
+        // a second replica, so that the compared state is a merge result
+        let (l2, t2) = tset_of_code(dom, rng.below(3u64.pow(dom as u32)));
+        ls.push(format!("ts merge vec {}|{}", show_unsorted(&l2), show_unsorted(&t2)));
+    }
+    for _ in 0..rng.range(3, 7) {
+        let mut c = code;
+        // change one to three digits of the left state's code (or draw a fresh state)
+        if rng.chance(1, 5) {
+            c = rng.below(3u64.pow(dom as u32));
+        } else {
+            for _ in 0..rng.range(0, 3) {
+                let p = 3u64.pow(rng.below(dom) as u32);
+                let d = c / p % 3;
+                c = c - d * p + rng.below(3) * p;
+            }
+        }
+        let (mut l, mut t) = tset_of_code(dom, c);
+        shuffle(rng, &mut l);
+        shuffle(rng, &mut t);
+        ls.push(format!("ts cmp {}|{}", show_unsorted(&l), show_unsorted(&t)));
+    }
+    ls.push("ts state".into());
+    ls
+}
+/// a map state over keys {0..dom}: per key a base-5 digit: absent, tombstoned, {5}, {6}, {5,6}
+fn tmap_of_code(dom: u64, mut code: u64) -> (Vec<Entry>, Vec<u64>) {
+    let (mut m, mut t) = (vec![], vec![]);
+    for k in 0..dom {
+        match code % 5 { 1 => t.push(k), 2 => m.push((k, vec![5])), 3 => m.push((k, vec![6])), 4 => m.push((k, vec![5, 6])), _ => {} }
+        code /= 5;
+    }
+    (m, t)
+}
+/// every pair of map states over two keys
+fn exhaustive_map_cmp_cases() -> Vec<Vec<String>> {
+    (0..25u64)
+        .map(|a| {
+            let (m, t) = tmap_of_code(2, a);
+            let mut ls = vec![format!("tm merge same {}|{}", show_entries(&m), show_unsorted(&t))];
+            for b in 0..25u64 {
+                let (m, t) = tmap_of_code(2, b);
+                ls.push(format!("tm cmp {}|{}", show_entries(&m), show_unsorted(&t)));
+            }
+            ls
+        })
+        .collect()
+}
+fn gen_map_cmp_case(rng: &mut Rng) -> Vec<String> {
+    let dom = rng.range(3, 5);
+    let code = rng.below(5u64.pow(dom as u32));
+    let (m, t) = tmap_of_code(dom, code);
+    let mut ls = vec![format!("tm merge {} {}|{}", rng.pick(&["same", "vec", "hash"]), show_entries(&m), show_unsorted(&t))];
+    if rng.chance(1, 2) {
+        let (m2, t2) = tmap_of_code(dom, rng.below(5u64.pow(dom as u32)));
+        ls.push(format!("tm merge vec {}|{}", show_entries(&m2), show_unsorted(&t2)));
+    }
+    for _ in 0..rng.range(3, 7) {
+        let mut c = code;
+        if rng.chance(1, 5) {
+            c = rng.below(5u64.pow(dom as u32));
+        } else {
+            for _ in 0..rng.range(0, 3) {
+                let p = 5u64.pow(rng.below(dom) as u32);
+                let d = c / p % 5;
+                c = c - d * p + rng.below(5) * p;
+            }
+        }
+        let (mut m, mut t) = tmap_of_code(dom, c);
+        if rng.chance(1, 6) {
+            // a bottom value: invisible
+            let k = rng.below(dom);
+            if !m.iter().any(|e| e.0 == k) && !t.contains(&k) {
+                m.push((k, vec![]));
+            }
+        }
+        shuffle(rng, &mut m);
+        shuffle(rng, &mut t);
+        ls.push(format!("tm cmp {}|{}", show_entries(&m), show_unsorted(&t)));
+    }
+    ls.push("tm state".into());
+    ls
+}
+
 /// every history of `len` replicas over item domain {0..dom}, followed by every re-merge order
 fn exhaustive_set_cases(dom: u64, len: usize) -> Vec<Vec<String>> {
     let nrep = 1u64 << (2 * dom); // (live subset, tomb subset)
@@ -762,14 +1019,27 @@ pub fn run(args: &Args, rec: &mut Recorder) {
         no += 1;
         run_case(no, "kind=tmap exhaustive", &ls, rec);
     }
+    for ls in exhaustive_set_cmp_cases() {
+        no += 1;
+        run_case(no, "kind=tset cmp exhaustive", &ls, rec);
+    }
+    for ls in exhaustive_map_cmp_cases() {
+        no += 1;
+        run_case(no, "kind=tmap cmp exhaustive", &ls, rec);
+    }
     // random part
     for i in 0..args.cases {
         let mut rng = root.fork(i);
         let set = rng.chance(1, 2);
-        let mut ls = if set { gen_set_case(&mut rng, thorough) } else { gen_map_case(&mut rng, thorough) };
+        let mut ls = match (set, rng.chance(1, 4)) {
+            (true, false) => gen_set_case(&mut rng, thorough),
+            (false, false) => gen_map_case(&mut rng, thorough),
+            (true, true) => gen_set_cmp_case(&mut rng),
+            (false, true) => gen_map_cmp_case(&mut rng),
+        };
         if rng.chance(1, 12) {
             // malformed stream
-            let bad = ["ts merge vec 1,x|2", "ts merge vec 1,2", "ts frob", "tm merge vec 1:2:3|-", "tm merge vec 1|2", "ts perm 99", "tm perm 0,x", "zz", "ts merge vec 1|2|3", "tb union 1|2", "tb union 1|2 x", "tb union 1 2"];
+            let bad = ["ts merge vec 1,x|2", "ts merge vec 1,2", "ts frob", "tm merge vec 1:2:3|-", "tm merge vec 1|2", "ts perm 99", "tm perm 0,x", "zz", "ts merge vec 1|2|3", "tb union 1|2", "tb union 1|2 x", "tb union 1 2", "ts cmp 1,1|2", "ts cmp 1|1", "ts cmp 1", "tm cmp 1:5,1:6|-", "tm cmp 1:5|1", "tm cmp 1:5.5|-", "tm cmp x|-"];
             let at = rng.below(ls.len() as u64 + 1) as usize;
             ls.insert(at, rng.pick(&bad).to_string());
         }
